@@ -133,12 +133,15 @@ DELAY_DOC = '''<scxml xmlns="http://www.w3.org/2005/07/scxml" version="1.0" data
 <state id="s1">
   <transition event="d.*"><assign location="n" expr="n + 1"/><log label="D" expr="_event.name"/></transition>
   <transition event="fin" target="s2"/>
+  <transition event="kill.0"><cancel sendid="t0"/></transition>
+  <transition event="kill.1"><cancel sendid="t1"/></transition>
+  <transition event="kill.2"><cancel sendid="t2"/></transition>
 </state>
 <state id="s2"/>
 </scxml>'''
 
 
-def check_delayed(ctx, delays, engine):
+def check_delayed(ctx, delays, engine, kill=()):
     """pending delayed events must survive a snapshot: 'go' schedules len(delays) delayed self-sends, the snapshot is taken at the
     first stable point after 'go' (all of them still pending: delays >= 150 ms), the resumed interpreter must deliver them all"""
     sends = "".join('<send event="d.%d" delay="%dms" id="t%d"/>' % (i, d, i) for i, d in enumerate(delays))
@@ -149,7 +152,10 @@ def check_delayed(ctx, delays, engine):
     snap_i = next(i for i, e in enumerate(raw) if e[0] == 'ser' and i > fed_at and any(x[0] == 'be' and x[1] == 's1' for x in raw[:i]))
     snap = raw[snap_i][1]
     try:
-        res = ctx.worker().call("run", xml, engine, "", "maxsteps=400 idlewait=%d data vars=n" % (max(delays) + 600), snap, timeout=30)
+        # the continuation: some of the pending events are cancelled by their send id right after the resume
+        kill = [k for k in sorted(set(kill)) if k < len(delays)]
+        res = ctx.worker().call("run", xml, engine, "\n".join("kill.%d" % k for k in kill), "maxsteps=400 idlewait=%d data vars=n" % (max(delays) + 600),
+                                snap, timeout=30)
     except WorkerCrash as e:
         raise Failure("crash-on-resume", {"stderr": e.stderr[-2500:], "signature": crash_signature(e.stderr)})
     except WorkerHang:
@@ -157,16 +163,18 @@ def check_delayed(ctx, delays, engine):
     if res.get("exception"):
         raise Failure("resume-rejected-own-snapshot", {"exception": res["exception"][:300], "signature": "own-snapshot-rejected"})
     got = sorted(e[1] for e in res["trace"] if e[0] == 'ev' and e[1].startswith('d.'))
-    want = sorted("d.%d" % i for i in range(len(delays)))
+    want = sorted("d.%d" % i for i in range(len(delays)) if i not in kill)
     if got != want:
         for f in ctx.kf.known(PROPERTY):
             if f.get("signature", {}).get("kind") == "class" and f["signature"]["class"] == "pending-delayed-events":
                 ctx.known_finding(f["id"], {"delays": delays})
                 ctx.count(harness.h64("delayed", str(delays), engine), False, ['excluded_by_known_finding'])
                 return
-        raise Failure("pending-delayed-events-lost", {"engine": engine, "delays_ms": delays, "expected": want, "delivered_after_resume": got,
+        raise Failure("pending-delayed-events-lost" if len(got) < len(want) else "cancelled-delayed-event-delivered-after-resume",
+                      {"engine": engine, "delays_ms": delays, "cancelled_after_resume": kill, "expected": want, "delivered_after_resume": got,
                                                       "snapshot_delayQueue": json.loads(snap).get("delayQueue"), "signature": "delayed-lost"})
-    ctx.count(harness.h64("delayed", str(delays), engine), True, ['pending-delayed-events'], sample={"delays_ms": delays, "engine": engine})
+    ctx.count(harness.h64("delayed", str(delays), str(kill), engine), True, ['pending-delayed-events'] + (['cancel-after-resume'] if kill else []),
+              sample={"delays_ms": delays, "cancelled_after_resume": kill, "engine": engine})
 
 
 def shard_main(ctx):
@@ -175,9 +183,10 @@ def shard_main(ctx):
     if ctx.shard == 0:
         ctx.replay_corpus(mod)
     if ctx.shard < 4:
-        ctx.run_hypothesis([st.lists(st.sampled_from([150, 200, 250, 300]), min_size=1, max_size=3), st.sampled_from(['large', 'fast'])],
-                           lambda delays, engine: check_delayed(ctx, delays, engine), 2, lambda delays, engine: {"delays": delays, "engine": engine},
-                           name="delayed")
+        ctx.run_hypothesis([st.lists(st.sampled_from([150, 200, 250, 300]), min_size=1, max_size=3), st.sampled_from(['large', 'fast']),
+                            st.lists(st.integers(0, 2), max_size=2)],
+                           lambda delays, engine, kill: check_delayed(ctx, delays, engine, kill), 3,
+                           lambda delays, engine, kill: {"delays": delays, "engine": engine, "kill": kill}, name="delayed")
     o = gen.GenOpts(history_weight=3, max_states=8)
     for engine in ("large", "fast"):
         ctx.run_hypothesis([gen.charts(o, 'lua'), gen.event_histories(7)], lambda ch, evs, engine=engine: check_case(ctx, ch, evs, engine),
@@ -190,7 +199,7 @@ def shard_main(ctx):
 def replay(ctx, case):
     if "delays" in case:
         try:
-            check_delayed(ctx, case["delays"], case["engine"])
+            check_delayed(ctx, case["delays"], case["engine"], case.get("kill", ()))
         except Failure as f:
             return [{"kind": f.kind, "detail": f.detail}]
         return []
